@@ -73,26 +73,6 @@ pub fn k17_constructor_ascii<const L: usize, const WHICH: u8>() {
     kani::cover!(true);
 }
 
-/// non-ASCII or CR LF text: constructor WHICH produces the code-point form with one item per
-/// code point (segmentation-off configuration), equal to what Utf32Str::new produces
-pub fn k17_constructor_unicode<const L: usize, const WHICH: u8>() {
-    let bytes: [u8; L] = kani::any();
-    if let Ok(s) = std::str::from_utf8(&bytes) {
-        kani::assume(!(all_ascii(&bytes) && !has_crlf(&bytes)));
-        let mut buf = Vec::new();
-        let v = Utf32Str::new(s, &mut buf);
-        assert!(!v.is_ascii(), "text that is not plain ASCII takes the code-point form");
-        let a: Utf32String = match WHICH {
-            1 => s.into(),
-            2 => s.to_owned().into(),
-            _ => Cow::Borrowed(s).into(),
-        };
-        assert!(a.slice(..) == v, "the owned and the buffer-based forms agree");
-        assert!(a.len() == v.len());
-        kani::cover!(v.len() == 1);
-    }
-}
-
 fn check_accessors(v: Utf32Str<'_>, content: &[char]) {
     let n = content.len();
     assert!(v.len() == n && v.is_empty() == (n == 0), "len / is_empty agree with the content");
